@@ -227,7 +227,7 @@ def tlc(module, cfg, env=None, workers=1, timeout=1800, heap="4g", extra=(), deq
     if deque:
         jopts.append("-Dtlc2.tool.queue.IStateQueue=StateDeque")
     cmd = ["timeout", str(timeout), "java"] + jopts + ["-cp", TLC_CP, "tlc2.TLC",
-           "-workers", str(workers), "-metadir", meta, "-config", cfgp] + list(extra) + [module + ".tla"]
+           "-workers", str(workers), "-metadir", meta, "-noGenerateSpecTE", "-config", cfgp] + list(extra) + [module + ".tla"]
     e = dict(os.environ)
     e.pop("JAVA_TOOL_OPTIONS", None)
     if env:
